@@ -1,4 +1,5 @@
 import GramModel.Generated.Sites
+import GramModel.Lemmas.SortDedup
 
 /-!
 # C13 — output is a deterministic function of the input
@@ -51,3 +52,34 @@ example : visitOrder (fun _ => [3, 1, 2]) [1, 2, 3] = visitOrder (fun _ => [2, 3
   C13_visit_order_invariant _ _ _ (by decide) (by decide)
 /-- without the sort (the pinned tree, defect D11) the order did depend on the hash order -/
 example : (fun (_ : List Nat) => [3, 1, 2]) [1, 2, 3] ≠ (fun (_ : List Nat) => [2, 3, 1]) [1, 2, 3] := by decide
+
+/-! ## The site in the parser model, and the other sources of run-to-run variation -/
+
+/-- In the parser model (the one compared with `parse()` on every `parse` op) the loop of `check_definition` runs
+over `sortDedup` of the free variables: whatever order — and multiplicity — the hash set yields its elements in,
+the loop visits the same variables in the same order, so the same diagnostics come out in the same order. -/
+def C13_model_site_set_function_stmt : Prop :=
+  ∀ (defs : Array (Name × PModel.RTm × PModel.RTm)) (start : Nat)
+    (rec : Nat → PModel.CheckSt → Option PModel.CheckSt) (xs ys : List Nat) (st : PModel.CheckSt),
+    (∀ x, x ∈ xs ↔ x ∈ ys) →
+    PModel.checkVariables defs start rec (PModel.sortDedup xs) st =
+      PModel.checkVariables defs start rec (PModel.sortDedup ys) st
+theorem C13_model_site_set_function : C13_model_site_set_function_stmt := by
+  intro defs start rec xs ys st h
+  rw [PModel.sortDedup_set xs ys h]
+
+/-- Every use, in non-test code, of an API whose result can differ between two runs on the same file — clocks,
+random numbers, threads, environment, process id, pointer formatting / casts / hashing, directory listing, hasher
+state, parallel iterators, shared mutable state — regenerated from the sources on every run.  There are exactly two,
+and neither reaches the output: `main` runs everything in ONE thread that it joins at once (a big stack, no
+concurrency), and `HashableRc` hashes the address of a cell for the occurs-check set of `collect_unifiers`, which
+is only ever asked `contains`/`insert` (an iteration over it would appear in `Generated.hashIterSites` and break
+`C13_hash_iteration_sites_covered`).  A diagnostic that prints an address, a timing line, a `for` over an
+address-keyed set, a second thread … changes this table. -/
+def C13_nondeterminism_sources_stmt : Prop :=
+  Generated.nondetSources = [("main.rs", "main", "thread"), ("unifier.rs", "hash", "pointer-hash")]
+theorem C13_nondeterminism_sources : C13_nondeterminism_sources_stmt := by
+  unfold C13_nondeterminism_sources_stmt; decide
+
+-- non-vacuity: two hash orders (one with a repeated element) of the set {0, 2, 5}
+example : PModel.sortDedup [5, 0, 2, 5] = PModel.sortDedup [2, 5, 0] := by decide
